@@ -71,6 +71,12 @@ ORIGINS = {
         ("from_slice_into_readonly_locked, 4097 bytes", "RoL", "    let big = [9u8; 4097];\n    let mut r = HeapBytes::from_slice_into_readonly_locked(&big).unwrap();\n"),
         ("from_slice_into_locked, 4096 bytes", "RwL", "    let big = [9u8; 4096];\n    let mut r = HeapBytes::from_slice_into_locked(&big).unwrap();\n"),
         ("from_slice_into_locked, 1 byte", "RwL", "    let one = [9u8; 1];\n    let mut r = HeapBytes::from_slice_into_locked(&one).unwrap();\n"),
+        # the empty region: every permitted transition still succeeds (there is nothing to protect); only the
+        # operations of EMPTY_OPS are generated for it, since there is no byte to index
+        ("new_locked(), empty", "RwL", "    let mut r = HeapBytes::new_locked().unwrap();\n"),
+        ("new_readonly_locked(), empty", "RoL", "    let mut r = HeapBytes::new_readonly_locked().unwrap();\n"),
+        ("from_slice_into_readonly_locked(b\"\"), empty", "RoL", "    let mut r = HeapBytes::from_slice_into_readonly_locked(b\"\").unwrap();\n"),
+        ("locked region resized to zero, empty", "RwL", "    let mut r = HeapBytes::from_slice_into_locked(&src).unwrap();\n    r.resize(0, 0);\n"),
     ],
     "HeapByteArray<32>": [
         ("StackByteArray::mlock()", "RwL", "    let mut r = StackByteArray::<32>::from(src).mlock().unwrap();\n"),
@@ -91,7 +97,11 @@ LIGHT_OPS = {
     "read_last_byte": "let n = r.as_slice().len(); let v = r.as_slice()[n - 1];",
     "write_last_byte": "let n = r.as_slice().len(); r.as_mut_slice()[n - 1] = 1;",
     "read_only_then_read_last": "let t = r.mprotect_readonly().unwrap(); let n = t.as_slice().len(); let v = t.as_slice()[n - 1];",
+    "clone_when_readable": "let c = r.clone(); let n = c.as_slice().len();",
 }
+
+
+EMPTY_OPS = ("drop_only", "read_view(as_slice)", "unlock", "clone_when_readable")
 
 
 def path(origin_state, target):
@@ -233,6 +243,10 @@ def programs():
                 prefix = ocode + path(ostate, state)
                 for op, stmt in LIGHT_OPS.items():
                     pm = state[:2]
+                    if oname.endswith("empty") and op not in EMPTY_OPS:
+                        continue
+                    if op == "clone_when_readable" and (pm == "Na" or container != "HeapBytes"):
+                        continue
                     if op in ("read_view(as_slice)", "read_last_byte") and pm == "Na":
                         continue
                     if op in ("mutable_view(as_mut_slice)", "write_last_byte") and pm != "Rw":
